@@ -3,3 +3,4 @@ NEXT SNext
 CONSTANTS
   MaxCmds = 1
 INVARIANT SEmit
+INVARIANT SEmitEnds
